@@ -312,6 +312,10 @@ def units(tier):
     wrap("C20.add_potential_factor.boltzmann_exponent", unit_potential_factor)
     wrap("C20.calc_all_g.piecewise_quadrature_partitions_[1,xd]", unit_quadrature_partition)
     wrap("C20.read_surface_species.cd_music_charge_distribution", unit_cd_music_distribution)
+    from props import c20_more as MO
+    wrap("C20.residuals.CD_MUSIC_plane0_charge_from_site_masters", MO.unit_cd_music_sigma0)
+    wrap("C20.donnan.charge_group_equivalents_include_enrichment", MO.unit_donnan_equivalents)
+    wrap("C20.kinetic_related_sorbents_follow_the_current_amount", MO.unit_related_to_kinetics)
     return us
 
 
